@@ -200,7 +200,8 @@ MGarbage(s)    == {Mut("Garbage", i, 0, c) : i \in {j \in FieldIdx(s) : ~IsText(
 MDuplicate(s)  == {Mut("DuplicateField", i, 0, "") : i \in FieldIdx(s)}
 MDrop(s)       == {Mut("DropField", i, 0, "") : i \in FieldIdx(s)}
 MInsert(s)     == {Mut("InsertBytes", 0, k, c) : k \in Boundaries(s), c \in Snippets(s.kind)}
-MRun(s)        == CASE s.kind \in {"file", "dataset"} -> {Mut("InsertRun", 0, n, "nest") : n \in {40, 3000, 30000}}
+DeepSeeds      == {"f_small_ivrle", "d_small_evrle", "d_deflen_evrbe"}   \* 30000 levels are slow to read: three seeds only
+MRun(s)        == CASE s.kind \in {"file", "dataset"} -> {Mut("InsertRun", 0, n, "nest") : n \in {40, 3000} \cup (IF s.name \in DeepSeeds THEN {30000} ELSE {})}
                     [] s.kind = "json" -> {Mut("InsertRun", 0, n, c) : n \in {100, 200, 5000}, c \in {"lbrack", "nest"}}
                     [] s.kind = "text" -> {Mut("InsertRun", 0, n, c) : n \in {300, 70000}, c \in {"9", "A", "[", "euro", "."}}
                     [] OTHER -> {}
